@@ -103,6 +103,11 @@ def replay_native(ctx, kind, args, both_profiles=True):
     The native command prints one JSON object {"violates": bool, "detail": str}.
     A process abort (ub_checks precondition, panic) is reported by rc != 0."""
     out = {}
+    if getattr(ctx, "native_bin", None) is None:
+        try:
+            ctx.native_bin = build(ctx.ov, "dev")
+        except engine.BuildError as e:
+            return {"reproduced": None, "detail": "native replay build failed: " + str(e)[-300:], "kind": kind, "args": [str(a) for a in args]}
     bins = [("dev", ctx.native_bin)]
     if both_profiles:
         try:
